@@ -620,6 +620,11 @@ class Run:
               "known_findings_reported": self.known_printed}
         with open(os.path.join(EVID, self.pid + ".json"), "w") as f:
             json.dump(ev, f, indent=1, sort_keys=True, default=str)
+        # every listed (open) finding of this property is reported on every run, met or not
+        for k in self.known:
+            if k.get("status", "open") == "open" and k["id"] not in self.known_printed:
+                print("KNOWN-FINDING: property=%s %s (listed in known_findings.json; not met by the cases of this run)"
+                      % (self.pid, k["what"]))
         if not self.violations:
             print("OK property=%s tier=%s seed=%d theorems=%d/%d cases=%d distinct=%d wall=%.1fs"
                   % (self.pid, self.tier, self.seed, disch, nthm, cov["evaluations"],
